@@ -61,23 +61,35 @@ def status_table(rep):
     impl_f = z3.Function("impl_status", z3.IntSort(), z3.IntSort())
     tab_f = z3.Function("table_status", z3.IntSort(), z3.IntSort())
     known = [v for v in variants if v in table and len(table[v]) == 1]
+
+    def num(x):
+        return x if isinstance(x, int) and not isinstance(x, bool) else -1      # no status (table: N/A, code: None) is -1 on both sides
     for i, v in enumerate(known):
-        s.add(impl_f(i) == (impl.get(v) if isinstance(impl.get(v), int) else -1))
-        s.add(tab_f(i) == list(table[v])[0])
+        s.add(impl_f(i) == num(impl.get(v)))
+        s.add(tab_f(i) == num(list(table[v])[0]))
+    if s.check() != z3.sat:
+        rep.fail_inconclusive("status table: the encoding of the two tables is itself unsatisfiable (vacuity guard)")
+        return
     s.add(idx >= 0, idx < len(known), impl_f(idx) != tab_f(idx))
-    r = s.check()
     rep.encoded("crates/s3s/src/error/generated.rs", "S3ErrorCode::status_code (%d variants), as_enum_tag, STATIC_CODE_LIST, from_bytes" % len(variants))
-    if r == z3.unsat:
+    results = []
+    while s.check() == z3.sat:
+        i = s.model()[idx].as_long()
+        s.add(idx != i)
+        v = known[i]
+        out = replay.call_fn("error_status", v)
+        want = list(table[v])[0]
+        res = rep.violation("status-table:" + v, "S3ErrorCode::%s maps to %s, the table says %s" % (v, impl.get(v), want),
+                            rep.save_cex("status_" + v, {"code": v, "impl": impl.get(v), "table": want, "native": out}),
+                            confirmed=(out.get("status") != want))
+        results.append(res)
+    if not results:
         rep.obligation("status_code(code) equals the status of data/s3_error_codes.json for all %d codes the table defines unambiguously" % len(known),
                        "rsx+z3", "holds", time.time() - t0, queries=len(paths))
     else:
-        i = s.model()[idx].as_long()
-        v = known[i]
-        out = replay.call_fn("error_status", v)
-        res = rep.violation("status-table:" + v, "S3ErrorCode::%s maps to %s, the table says %s" % (v, impl.get(v), sorted(table[v])),
-                            rep.save_cex("status_" + v, {"code": v, "impl": impl.get(v), "table": sorted(table[v]), "native": out}),
-                            confirmed=(out.get("status") != list(table[v])[0]))
-        rep.obligation("status table", "rsx+z3", res, time.time() - t0)
+        rep.obligation("status_code(code) equals the status of data/s3_error_codes.json for all %d codes the table defines unambiguously, except %d "
+                       "reported codes" % (len(known), len(results)), "rsx+z3",
+                       "violated" if "violated" in results else ("inconclusive" if "inconclusive" in results else "known"), time.time() - t0, queries=len(paths))
     amb = [v for v in variants if v in table and len(table[v]) > 1]
     missing = [c for c in table if c not in variants]
     if amb:
@@ -99,7 +111,11 @@ def status_table(rep):
     if not bad and names:
         rep.obligation("from_bytes(as_str(c)) = c and as_str(c) is the code's name, for all %d static codes" % len(names), "rsx(table)", "holds", 0)
     else:
-        rep.violation("code-names:" + (bad[0] if bad else "?"), "as_str/from_bytes disagree for %s" % bad[:5], None, confirmed=False)
+        conf = False
+        if bad:
+            o = replay.call_fn("error_code_names")
+            conf = bool(o.get("bad"))
+        rep.violation("code-names:" + (bad[0] if bad else "?"), "as_str/from_bytes disagree for %s" % bad[:5], None, confirmed=conf)
 
 
 def rendering(rep):
